@@ -14,6 +14,8 @@
 //         mb=<free gp id usable as base of the M-form>  bo=<bits> (bit-offset operand 1 is reduced modulo bits)
 //   fx letters: n = non-deterministic result (W only), x = x87 (W on non-x87 state only), m = MMX register image, d = div/idiv image,
 //               c = ecx in {0,1}, p = probe (run only if every reported feature is on the host), M = no M check,
+//               w = width variant: one GP register operand has another width than the database form; run only if validate() and the
+//                   assembler accept it
 //               u = uniqueness probe: two register operands share one register on purpose; a #UD is the expected outcome when the
 //                   answer flags one of them kUnique (or reports both as read), and a finding otherwise
 //
@@ -1049,12 +1051,14 @@ struct ImageFix {
   int n_gp = 0; int gp_id[6]; uint64_t gp_val[6];
   int vs_reg = -1, vs_bits = 0;
   bool div = false, x87 = false, mmx = false, ecx01 = false, is32 = false;
+  uint32_t pat_mask = 0; int pat = 0;     // GP register operands preloaded with 0xA5.. (1) / 0x5A.. (2): no byte of the register is zero
   int bo_reg = -1, bo_hi = 0, bo_bits = 0;
   int div_reg = -1, div_hi = 0; bool div_mem = false;
 };
 
 static void gen_image(Rng& r, State& s, const ImageFix& fx, int vec_style) {
   for (int i = 0; i < 16; i++) s.gp(i) = rnd_val(r);
+  if (fx.pat) for (int i = 0; i < 16; i++) if (fx.pat_mask & (1u << i)) s.gp(i) = fx.pat == 1 ? 0xA5A5A5A5A5A5A5A5ull : 0x5A5A5A5A5A5A5A5Aull;
   s.gp(4) = uint64_t(uintptr_t(STACK_MID));
   s.fl = 0;
   uint64_t fr = r.next();
@@ -1142,6 +1146,7 @@ static void build_acc(const Case& c, const Operand* ops, int nops, bool has_extr
       const Reg& r = ops[i].as<Reg>();
       size_t base, limit; int shift;
       if (r.reg_type() == RegType::kX86_St) continue;   // x87 registers are not diffed
+      if (r.reg_type() == RegType::kSegment) continue;  // segment registers: read-only sources, not part of the image
       if (!reg_loc(r, &base, &limit, &shift)) { A.unsupported = true; A.why = "register type"; return; }
       for (size_t b = 0; b < limit; b++) if (A.op_of[base + b] < 0) A.op_of[base + b] = int8_t(i);
       if (o.is_read()) mark(A.rd, base, limit, o.read_byte_mask(), shift);
@@ -1201,7 +1206,7 @@ static void build_acc(const Case& c, const Operand* ops, int nops, bool has_extr
 struct Viol { std::string key, what, line; };
 
 struct Stats {
-  uint64_t cases32 = 0, executed_cases32 = 0, runs32 = 0;
+  uint64_t cases32 = 0, executed_cases32 = 0, runs32 = 0, width_refused = 0, width_refused_but_encoded = 0, pattern_images = 0;
   uint64_t cases = 0, executed_cases = 0, nontrivial_cases = 0, runs = 0, runs_ok = 0, sigill = 0, segv = 0, fpe = 0, bus = 0, trap = 0;
   uint64_t r_runs = 0, r_locations_flipped = 0, m_forms = 0, m_runs = 0, m_fault = 0, asm_refused = 0, unsupported = 0, all_fault_cases = 0;
   uint64_t changed_bytes = 0, flags_changed = 0, zext_checked = 0, passthrough_seen = 0, nongp_outside_mask = 0;
@@ -1308,6 +1313,11 @@ struct Runner {
       bi = BaseInst(inst_id, InstOptions(c.opts), extra);
       has_extra = true;
     }
+    if (c.has('w') && InstAPI::validate(ARCH, bi, ops, size_t(c.nops)) != Error::kOk) {
+      // (the non-validating assembler may still emit something for it - the instruction of the database width: counted, no verdict)
+      { std::string b2; Error e2; if (make_code(0, inst_id, c.opts, has_extra, extra, ops, c.nops, &b2, &e2, is32).empty()) st.width_refused_but_encoded++; }
+      st.width_refused++; snprintf(rec, sizeof rec, "[%s,\"wval\"],", c.id.c_str()); per_case += rec; return;
+    }
     InstRWInfo rw; memset(&rw, 0, sizeof rw);
     CpuFeatures feat;
     Error e_rw = InstAPI::query_rw_info(ARCH, bi, ops, size_t(c.nops), &rw);
@@ -1318,6 +1328,7 @@ struct Runner {
     Error e_f = InstAPI::query_features(ARCH, bi, ops, size_t(c.nops), &feat);
     std::string bytes; Error e_e;
     std::string err = make_code(0, inst_id, c.opts, has_extra, extra, ops, c.nops, &bytes, &e_e, is32);
+    if (!err.empty() && c.has('w')) { st.width_refused++; snprintf(rec, sizeof rec, "[%s,\"wval\"],", c.id.c_str()); per_case += rec; return; }
     if (!err.empty()) { st.asm_refused++; snprintf(rec, sizeof rec, "[%s,\"asm\",%u],", c.id.c_str(), unsigned(e_e)); per_case += rec; return; }
     if (e_rw != Error::kOk) {
       violation("Q:" + c.name + ":" + c.sig + ":query_rw_info-fails", "assembler encodes the instruction (" + bytes + ") but query_rw_info returns error " + std::to_string(unsigned(e_rw)), c);
@@ -1347,6 +1358,9 @@ struct Runner {
     if (fx.div && c.nops >= 1 && c.ops[c.nops - 1].kind == 'R') { fx.div_reg = int(c.ops[c.nops - 1].rid & 15); fx.div_hi = c.ops[c.nops - 1].rtype == "gp8hi"; }
     if (c.bo && c.nops >= 2 && c.ops[1].kind == 'R') { fx.bo_reg = int(c.ops[1].rid & 15); fx.bo_bits = c.bo; }
 
+    for (int i = 0; i < c.nops; i++)
+      if (ops[i].is_reg() && ops[i].as<Reg>().is_gp() && (ops[i].as<Reg>().id() & 15) != 4 && int(ops[i].as<Reg>().id() & 15) != fx.bo_reg) fx.pat_mask |= 1u << (ops[i].as<Reg>().id() & 15);
+    if (fx.div || fx.ecx01) fx.pat_mask = 0;
     bool on_host = feats_on_host(feat, nullptr);
     if (c.has('p') && (!on_host || e_f != Error::kOk)) {
       // probe case (database extension absent on the host): only executed when AsmJit claims the host can run it
@@ -1453,6 +1467,8 @@ struct Runner {
     };
 
     for (uint32_t img = 0; img < n_images; img++) {
+      fx.pat = (fx.pat_mask && img % 8 == 5) ? 1 : (fx.pat_mask && img % 8 == 6) ? 2 : 0;
+      if (fx.pat) st.pattern_images++;
       gen_image(rng, in, fx, (img % 4 == 3) ? -1 : int(rng.below(8)));
       st.runs++;
       int res = run_image(in, out, fn, is32);
@@ -1746,7 +1762,7 @@ static int mode_run(const Args& args) {
            "\"changed_bytes\":%llu,\"flags_changed\":%llu,\"zext_checked\":%llu,\"passthrough_seen\":%llu,\"nongp_outside_mask\":%llu,"
            "\"zext_unchanged_checked\":%llu,\"zext_vec_checked\":%llu,\"zext_vec_beyond\":%llu,\"zext_vec_beyond_nonzero\":%llu,\"zext_skipped_undefined\":%llu,\"zext_vec_nonzero\":%llu,\"zext_passthrough_judged\":%llu,\"zext_passthrough_beyond_size\":%llu,\"zext_nonzero_operand_not_written\":%llu,\"zext_passthrough_operand_not_written\":%llu,"
            "\"movop_cases\":%llu,\"movop_runs_distinct\":%llu,\"movop_runs_same_reg\":%llu,\"movop_flag_not_consumed\":%llu,"
-           "\"uniq_cases\":%llu,\"uniq_ud\":%llu,\"uniq_ud_flagged\":%llu,\"uniq_ud_both_read\":%llu,\"uniq_no_ud\":%llu,\"uniq_no_ud_flagged\":%llu,\"cases32\":%llu,\"executed_cases32\":%llu,\"runs32_ok\":%llu",
+           "\"uniq_cases\":%llu,\"uniq_ud\":%llu,\"uniq_ud_flagged\":%llu,\"uniq_ud_both_read\":%llu,\"uniq_no_ud\":%llu,\"uniq_no_ud_flagged\":%llu,\"cases32\":%llu,\"executed_cases32\":%llu,\"runs32_ok\":%llu,\"width_refused\":%llu,\"width_refused_but_encoded\":%llu,\"pattern_images\":%llu",
            (unsigned long long)t.cases, (unsigned long long)t.executed_cases, (unsigned long long)t.nontrivial_cases, (unsigned long long)t.runs, (unsigned long long)t.runs_ok,
            (unsigned long long)t.sigill, (unsigned long long)t.segv, (unsigned long long)t.fpe, (unsigned long long)t.bus, (unsigned long long)t.trap,
            (unsigned long long)t.r_runs, (unsigned long long)t.r_locations_flipped, (unsigned long long)t.m_forms, (unsigned long long)t.m_runs, (unsigned long long)t.m_fault,
@@ -1754,7 +1770,7 @@ static int mode_run(const Args& args) {
            (unsigned long long)t.changed_bytes, (unsigned long long)t.flags_changed, (unsigned long long)t.zext_checked, (unsigned long long)t.passthrough_seen, (unsigned long long)t.nongp_outside_mask,
            (unsigned long long)t.zext_unchanged_checked, (unsigned long long)t.zext_vec_checked, (unsigned long long)t.zext_vec_beyond_operand_size, (unsigned long long)t.zext_vec_beyond_nonzero, (unsigned long long)t.zext_skipped_undefined, (unsigned long long)t.zext_vec_nonzero, (unsigned long long)t.zext_passthrough_judged, (unsigned long long)t.zext_passthrough_beyond_size, (unsigned long long)t.zext_nonzero_operand_not_written, (unsigned long long)t.zext_passthrough_operand_not_written,
            (unsigned long long)t.movop_cases, (unsigned long long)t.movop_runs_distinct, (unsigned long long)t.movop_runs_same_reg, (unsigned long long)t.movop_flag_not_consumed,
-           (unsigned long long)t.uniq_cases, (unsigned long long)t.uniq_ud, (unsigned long long)t.uniq_ud_flagged, (unsigned long long)t.uniq_ud_both_read, (unsigned long long)t.uniq_no_ud, (unsigned long long)t.uniq_no_ud_flagged, (unsigned long long)t.cases32, (unsigned long long)t.executed_cases32, (unsigned long long)t.runs32);
+           (unsigned long long)t.uniq_cases, (unsigned long long)t.uniq_ud, (unsigned long long)t.uniq_ud_flagged, (unsigned long long)t.uniq_ud_both_read, (unsigned long long)t.uniq_no_ud, (unsigned long long)t.uniq_no_ud_flagged, (unsigned long long)t.cases32, (unsigned long long)t.executed_cases32, (unsigned long long)t.runs32, (unsigned long long)t.width_refused, (unsigned long long)t.width_refused_but_encoded, (unsigned long long)t.pattern_images);
   s += b;
   s += ",\"imprecise\":[";
   for (size_t i = 0; i < IMPRECISE.size(); i++) { if (i) s += ","; s += jstr(IMPRECISE[i]); }
